@@ -341,13 +341,13 @@ def run(ctx, replay=None):
                 new_viol += 1
             stats['reduced_programs_searched'] = len(red)
     # C05: a valuation the model admits and the implementation rejects -- is it a valid schedule that is lost?
-    if ctx.prop == 'C05' and tie_breaks and new_viol == 0:
+    if ctx.prop in ('C05', 'C06', 'C10') and tie_breaks and new_viol == 0:
         for (i, direction, info) in [b for b in tie_breaks if b[1] == 'model=>impl'][:15]:
             ls = lost_schedule_search(ctx, progs[i], info.get('witness', {}))
             stats['lost_schedule_searches'] += 1
             if ls and not ls['spec_clauses_failing'] and ls['impl_with_pins'] == 'unsat':
                 path = common.write_replay(ctx, 'lost', {
-                    'kind': 'valid-schedule-lost', 'property': 'C05', 'program': terms.dump(progs[i]), 'program_pretty': pretty(progs[i]),
+                    'kind': 'valid-schedule-lost', 'property': ctx.prop, 'program': terms.dump(progs[i]), 'program_pretty': pretty(progs[i]),
                     'schedule': ls['pins'], 'implementation_assertion_rejecting_it': info.get('impl_assert'),
                     'what': 'every Spec clause of the problem holds on this schedule (evaluated by vm_compute), the model admits it, and the constraint '
                             'system built by /repo is unsatisfiable once the schedule is pinned (start / end / duration of acting tasks, flags, selections)'})
